@@ -12,11 +12,18 @@ import (
 	"fmt"
 	"go/token"
 	"go/types"
+	"math/big"
+	mathrand "math/rand"
+	randv2 "math/rand/v2"
+	"net"
+	"net/url"
 	"os"
 	"path/filepath"
+	"reflect"
 	"sort"
 	"strings"
 	"sync"
+	"time"
 
 	"github.com/octohelm/gengo/pkg/gengo"
 	"github.com/octohelm/gengo/pkg/gengo/snippet"
@@ -62,11 +69,49 @@ type opIn struct {
 	// lit: snippet.ID(types.Type) of a type literal over the named types Elems
 	Shape string `json:"shape,omitempty"` // named | ptr | slice | array | chan | map | struct
 	Elems []node `json:"elems,omitempty"`
+	// lit: render reflectTypes[Reflect] (a reflect.Type of a real Go type compiled into the harness)
+	// instead of a go/types value; Shape and Elems describe the same type
+	Reflect string `json:"reflect,omitempty"`
+}
+
+type reflectEntry struct {
+	shape string
+	t     reflect.Type
+	elems []node
+}
+
+var reflectTypes = map[string]reflectEntry{
+	"time.Time":        {"named", reflect.TypeOf(time.Time{}), []node{{Path: "time", Name: "Time"}}},
+	"*bytes.Buffer":    {"ptr", reflect.TypeOf(&bytes.Buffer{}), []node{{Path: "bytes", Name: "Buffer"}}},
+	"[]time.Duration":  {"slice", reflect.TypeOf([]time.Duration{}), []node{{Path: "time", Name: "Duration"}}},
+	"[3]net.IP":        {"array", reflect.TypeOf([3]net.IP{}), []node{{Path: "net", Name: "IP"}}},
+	"chan os.Signal":   {"chan", reflect.TypeOf(make(chan os.Signal)), []node{{Path: "os", Name: "Signal"}}},
+	"map[Month]Int":    {"map", reflect.TypeOf(map[time.Month]big.Int{}), []node{{Path: "time", Name: "Month"}, {Path: "math/big", Name: "Int"}}},
+	"struct{Rand;URL}": {"struct", reflect.TypeOf(struct {
+		A mathrand.Rand
+		B *url.URL
+	}{}), []node{{Path: "math/rand", Name: "Rand"}, {Path: "net/url", Name: "URL"}}},
+	"map[Block]TypeRef": {"map", reflect.TypeOf(map[snippet.Block]gengotypes.TypeRef{}), []node{
+		{Path: "github.com/octohelm/gengo/pkg/gengo/snippet", Name: "Block"}, {Path: "github.com/octohelm/gengo/pkg/types", Name: "TypeRef"}}},
+	"[]cryptorand":     {"slice", reflect.TypeOf([]randv2.PCG{}), []node{{Path: "math/rand/v2", Name: "PCG"}}},
+	"*namer.Names":     {"ptr", reflect.TypeOf(&namer.Names{}), []node{{Path: "github.com/octohelm/gengo/pkg/namer", Name: "Names"}}},
+}
+
+func reflectKeys() []string {
+	var ks []string
+	for k := range reflectTypes {
+		ks = append(ks, k)
+	}
+	sort.Strings(ks)
+	return ks
 }
 
 type input struct {
 	Self string `json:"self"`
 	Ops  []opIn `json:"ops"`
+	// render the history from a generator inside a real gengo run on a synthetic module and observe
+	// the written file (Self must be a package of module c03.test/m; snippet entry points only)
+	Pipeline bool `json:"pipeline,omitempty"`
 }
 
 func marshal(in input) json.RawMessage {
@@ -130,21 +175,32 @@ func flatten(args []node) []tok {
 	return toks
 }
 
+// a byte string as a Coq term: a plain literal when it is printable ASCII (half the size of the hex
+// transport, and the case files are dominated by parsing time), hex otherwise
+func cs(s string) string {
+	for i := 0; i < len(s); i++ {
+		if s[i] < 0x20 || s[i] > 0x7e {
+			return core.Hex(s)
+		}
+	}
+	return `(bs "` + strings.ReplaceAll(s, `"`, `""`) + `")`
+}
+
 func coqRef(path, name string, args []node, tparams []string) string {
 	var ts []string
 	for _, t := range flatten(args) {
-		ts = append(ts, "("+core.Hex(t.Path)+","+core.Hex(t.Lit)+")")
+		ts = append(ts, "("+cs(t.Path)+","+cs(t.Lit)+")")
 	}
 	var tp []string
 	for _, t := range tparams {
-		tp = append(tp, core.Hex(t))
+		tp = append(tp, cs(t))
 	}
-	return fmt.Sprintf("(mk_ref %s %s %s %s)", core.Hex(path), core.Hex(name), core.CoqList(ts), core.CoqList(tp))
+	return fmt.Sprintf("(mk_ref %s %s %s %s)", cs(path), cs(name), core.CoqList(ts), core.CoqList(tp))
 }
 
 func coqNodeItem(n node) string {
 	if n.Path == "" {
-		return "ILit " + core.Hex(printNode(n))
+		return "ILit " + cs(printNode(n))
 	}
 	return "IRef " + coqRef(n.Path, n.Name, n.Args, nil)
 }
@@ -153,7 +209,7 @@ func coqNodeItem(n node) string {
 func coqOp(o opIn) string {
 	switch o.K {
 	case "add":
-		return "OAdd " + core.Hex(o.Path)
+		return "OAdd " + cs(o.Path)
 	case "ref":
 		return "ORender [IRef " + coqRef(o.Path, o.Name, o.Args, o.TParams) + "]"
 	case "lit":
@@ -161,29 +217,22 @@ func coqOp(o opIn) string {
 			if i < len(o.Elems) {
 				return coqNodeItem(o.Elems[i])
 			}
-			return "ILit " + core.Hex("int")
+			return "ILit " + cs("int")
 		}
-		lit := func(s string) string { return "ILit " + core.Hex(s) }
+		lit := func(s string) string { return "ILit " + cs(s) }
+		sc := scaffolds()[o.Shape]
 		var items []string
-		switch o.Shape {
-		case "ptr":
-			items = []string{lit("*"), e(0)}
-		case "slice":
-			items = []string{lit("[]"), e(0)}
-		case "array":
-			items = []string{lit("[3]"), e(0)}
-		case "chan":
-			items = []string{lit("chan "), e(0)}
-		case "map":
-			items = []string{lit("map["), e(0), lit("]"), e(1)}
-		case "struct":
-			items = []string{lit("struct {A "), e(0), lit("\nB *"), e(1), lit("\n}")}
-		default: // named
+		switch len(sc) {
+		case 2:
+			items = []string{lit(sc[0]), e(0), lit(sc[1])}
+		case 3:
+			items = []string{lit(sc[0]), e(0), lit(sc[1]), e(1), lit(sc[2])}
+		default:
 			items = []string{e(0)}
 		}
 		return "ORender " + core.CoqList(items)
 	}
-	return "OAdd " + core.Hex("")
+	return "OAdd " + cs("")
 }
 
 // every package path an operation mentions (for LocalNameOf queries and tags)
@@ -263,6 +312,37 @@ func objOf(o opIn) *types.TypeName {
 	return obj
 }
 
+// The literal text around the element types of each shape is the dumper's business (C11), not the
+// naming system's: the harness learns it from the real dumper by rendering the shape over two
+// predeclared marker types and cutting the text at the markers.  nil = layout not recognisable.
+var scaffolds = sync.OnceValue(func() map[string][]string {
+	out := map[string][]string{}
+	for _, shape := range []string{"named", "ptr", "slice", "array", "chan", "map", "struct"} {
+		buf := &bytes.Buffer{}
+		sw := gengo.NewSnippetWriter(buf, namer.NameSystems{"raw": namer.NewRawNamer("m", namer.NewDefaultImportTracker())})
+		t := shapeType(shape, types.Typ[types.Int8], types.Typ[types.Int16])
+		if p, _ := core.Recover(func() { sw.Render(snippet.ID(t)) }); p {
+			continue
+		}
+		text := buf.String()
+		two := shape == "map" || shape == "struct"
+		i := strings.Index(text, "int8")
+		if i < 0 || strings.Count(text, "int8") != 1 {
+			continue
+		}
+		if !two {
+			out[shape] = []string{text[:i], text[i+4:]}
+			continue
+		}
+		j := strings.Index(text, "int16")
+		if j < i || strings.Count(text, "int16") != 1 {
+			continue
+		}
+		out[shape] = []string{text[:i], text[i+4 : j], text[j+5:]}
+	}
+	return out
+})
+
 func litType(o opIn) types.Type {
 	e := func(i int) types.Type {
 		if i < len(o.Elems) {
@@ -270,7 +350,17 @@ func litType(o opIn) types.Type {
 		}
 		return types.Typ[types.Int]
 	}
-	switch o.Shape {
+	return shapeType(o.Shape, e(0), e(1))
+}
+
+func shapeType(shape string, e0, e1 types.Type) types.Type {
+	e := func(i int) types.Type {
+		if i == 0 {
+			return e0
+		}
+		return e1
+	}
+	switch shape {
 	case "ptr":
 		return types.NewPointer(e(0))
 	case "slice":
@@ -313,17 +403,27 @@ func stdLines() []string {
 	return out
 }
 
-// name -> the std paths that get this name when added to a fresh tracker
-var stdOwners = sync.OnceValue(func() map[string][]string {
-	m := map[string][]string{}
+// std path -> the name it gets when it is the only package added to a fresh tracker
+var stdAlone = sync.OnceValue(func() map[string]string {
+	m := map[string]string{}
 	for _, l := range stdLines() {
 		tr := namer.NewDefaultImportTracker()
 		panicked, _ := core.Recover(func() { tr.AddType(gengotypes.Ref(l, "X")) })
 		if panicked {
 			continue
 		}
-		n := tr.LocalNameOf(l)
-		m[n] = append(m[n], l)
+		m[l] = tr.LocalNameOf(l)
+	}
+	return m
+})
+
+// name -> the std paths that get this name when added to a fresh tracker
+var stdOwners = sync.OnceValue(func() map[string][]string {
+	m := map[string][]string{}
+	for _, l := range stdLines() {
+		if n, ok := stdAlone()[l]; ok {
+			m[n] = append(m[n], l)
+		}
 	}
 	return m
 })
@@ -342,6 +442,7 @@ type impObs struct {
 	Name   string   `json:"name"`
 	PathOf *string  `json:"path_of"` // PathOf(name): nil = not found
 	Owners []string `json:"std_owners,omitempty"`
+	Alone  *string  `json:"std_name,omitempty"` // for a std.list package: its name on a fresh tracker
 }
 
 type observed struct {
@@ -390,7 +491,11 @@ func execute(in input) observed {
 					text = nm.Name(gengotypes.Ref(o.Path, o.Name+printArgs(o.Args)))
 				}
 			case "lit":
-				sw.Render(snippet.ID(litType(o)))
+				if e, ok := reflectTypes[o.Reflect]; ok {
+					sw.Render(snippet.ID(e.t))
+				} else {
+					sw.Render(snippet.ID(litType(o)))
+				}
 				text = buf.String()
 			}
 		})
@@ -411,6 +516,9 @@ func execute(in input) observed {
 		io := impObs{Path: e[0], Name: e[1], Owners: owners[e[1]]}
 		if p, ok := tr.PathOf(e[1]); ok {
 			io.PathOf = &p
+		}
+		if n, ok := stdAlone()[e[0]]; ok {
+			io.Alone = &n
 		}
 		obs.Final = append(obs.Final, io)
 	}
@@ -501,6 +609,15 @@ func structured(in input) (ok bool, why string) {
 				return false, "odd_args"
 			}
 		case "lit":
+			if _, ok := scaffolds()[o.Shape]; !ok {
+				return false, "literal_layout_not_recognised"
+			}
+			if o.Reflect != "" {
+				e, ok := reflectTypes[o.Reflect]
+				if !ok || e.shape != o.Shape || printArgs(e.elems) != printArgs(o.Elems) {
+					return false, "unknown_reflect_type"
+				}
+			}
 			if !okNodes(o.Elems, 0) {
 				return false, "odd_args"
 			}
@@ -520,11 +637,28 @@ func validLocalName(n string) bool {
 	return token.IsIdentifier(n) && !token.IsKeyword(n) && n != "_"
 }
 
-func (prop) Run(raw json.RawMessage, _ string) core.Result {
+func (prop) Run(raw json.RawMessage, scratch string) core.Result {
 	var in input
 	_ = json.Unmarshal(raw, &in)
 	var res core.Result
-	obs := execute(in)
+	pipe := in.Pipeline && pipelineOK(in)
+	var obs observed
+	if pipe {
+		var failure string
+		var notes []string
+		obs, failure, notes = runPipeline(in, scratch)
+		res.Notes = append(res.Notes, notes...)
+		res.Observed = obs
+		res.Tags = []string{"pipeline"}
+		if failure != "" {
+			res.GoViolations = append(res.GoViolations, failure)
+		}
+		if len(obs.Ops) == 0 { // nothing to evaluate in Coq (skipped, or the run failed and is reported above)
+			return res
+		}
+	} else {
+		obs = execute(in)
+	}
 	res.Observed = obs
 	str, why := structured(in)
 	cmp := str && allASCII(in)
@@ -544,11 +678,13 @@ func (prop) Run(raw json.RawMessage, _ string) core.Result {
 		}
 	}
 	// same history on a fresh tracker: same answer (the naming is a function of the history)
-	obs2 := execute(in)
-	a, _ := json.Marshal(obs)
-	b, _ := json.Marshal(obs2)
-	if !bytes.Equal(a, b) {
-		res.GoViolations = append(res.GoViolations, "the same history on a fresh tracker gives a different result")
+	if !pipe {
+		obs2 := execute(in)
+		a, _ := json.Marshal(obs)
+		b, _ := json.Marshal(obs2)
+		if !bytes.Equal(a, b) {
+			res.GoViolations = append(res.GoViolations, "the same history on a fresh tracker gives a different result")
+		}
 	}
 
 	// x/types prints an instantiated type's name the way the harness prints the tree (external component)
@@ -576,35 +712,64 @@ func (prop) Run(raw json.RawMessage, _ string) core.Result {
 	for _, o := range in.Ops {
 		ops = append(ops, coqOp(o))
 	}
+	// Imports() after every operation, sent as the difference to the previous one (keys that
+	// disappeared or changed, then the new bindings); Corr/C03.v rebuilds the maps exactly
+	prev := map[string]string{}
 	for _, o := range obs.Ops {
-		var sn []string
+		cur := map[string]string{}
+		var gone, added []string
 		for _, e := range o.Snap {
-			sn = append(sn, "("+core.Hex(e[0])+","+core.Hex(e[1])+")")
+			cur[e[0]] = e[1]
+			if v, ok := prev[e[0]]; !ok || v != e[1] {
+				added = append(added, "("+cs(e[0])+","+cs(e[1])+")")
+			}
 		}
-		oobs = append(oobs, fmt.Sprintf("mk_oo %s %s", core.CoqOpt(!o.Panicked, core.Hex(o.Text)), core.CoqList(sn)))
+		var pk []string
+		for k := range prev {
+			pk = append(pk, k)
+		}
+		sort.Strings(pk)
+		for _, k := range pk {
+			if v, ok := cur[k]; !ok || v != prev[k] {
+				gone = append(gone, cs(k))
+			}
+		}
+		prev = cur
+		oobs = append(oobs, fmt.Sprintf("mk_od %s %s %s", core.CoqOpt(!o.Panicked, cs(o.Text)), core.CoqList(gone), core.CoqList(added)))
 	}
 	for _, e := range obs.Final {
 		var ow []string
 		for _, w := range e.Owners {
-			ow = append(ow, core.Hex(w))
+			ow = append(ow, cs(w))
 		}
 		po := "None"
 		if e.PathOf != nil {
-			po = "(Some " + core.Hex(*e.PathOf) + ")"
+			po = "(Some " + cs(*e.PathOf) + ")"
+			if *e.PathOf == e.Path {
+				po = "Same"
+			}
 		}
-		fin = append(fin, fmt.Sprintf("mk_imp %s %s %s %s", core.Hex(e.Path), core.Hex(e.Name), po, core.CoqList(ow)))
+		al := "None"
+		if e.Alone != nil {
+			al = "(Some " + cs(*e.Alone) + ")"
+		}
+		if po == "Same" {
+			fin = append(fin, fmt.Sprintf("mk_imp_same %s %s %s %s", cs(e.Path), cs(e.Name), core.CoqList(ow), al))
+		} else {
+			fin = append(fin, fmt.Sprintf("mk_imp %s %s %s %s %s", cs(e.Path), cs(e.Name), po, core.CoqList(ow), al))
+		}
 	}
 	for _, e := range obs.LocalNames {
-		lns = append(lns, "("+core.Hex(e[0])+","+core.Hex(e[1])+")")
+		lns = append(lns, "("+cs(e[0])+","+cs(e[1])+")")
 	}
-	res.Coq = fmt.Sprintf("mk_case %s %s %s %s %s %s %s", core.Hex(in.Self), core.CoqList(ops), core.CoqBool(str), core.CoqBool(cmp),
+	res.Coq = fmt.Sprintf("mk_case %s %s %s %s %s %s %s %s", cs(in.Self), core.CoqList(ops), core.CoqBool(str), core.CoqBool(cmp), core.CoqBool(pipe),
 		core.CoqList(oobs), core.CoqList(fin), core.CoqList(lns))
 
 	// symptom class of a failing case (labels the report; all three classes are repaired, none is suppressed)
 	res.Class = symptom(in, obs)
 
 	// distribution
-	res.Tags = tagsOf(in, obs, cmp, why)
+	res.Tags = append(res.Tags, tagsOf(in, obs, cmp, why)...)
 	res.Nontrivial = len(obs.Final) >= 2
 	return res
 }
@@ -671,9 +836,17 @@ func tagsOf(in input, obs observed, cmp bool, why string) []string {
 			tags["k="+o.K] = true
 			if o.K == "lit" {
 				tags["shape="+o.Shape] = true
+				if o.Reflect != "" {
+					tags["lit:reflect.Type"] = true
+				} else {
+					tags["lit:go/types"] = true
+				}
 			}
 		}
 		for _, p := range opPaths(o) {
+			if p == "" && !(o.K != "lit" && o.Path == "") {
+				continue // a predeclared type among the arguments
+			}
 			seen[p]++
 			switch {
 			case p == "":
@@ -684,7 +857,10 @@ func tagsOf(in input, obs observed, cmp bool, why string) []string {
 				tags["path:std"] = true
 			}
 			segs := strings.Split(p, "/")
-			for _, s := range segs {
+			for i, s := range segs {
+				if i == 0 && len(segs) > 1 && strings.Contains(s, ".") {
+					continue // host name
+				}
 				switch {
 				case token.IsKeyword(s):
 					tags["seg:keyword"] = true
@@ -707,10 +883,10 @@ func tagsOf(in input, obs observed, cmp bool, why string) []string {
 			tags["path_repeated"] = true
 		}
 	}
-	// a package that did not get its first-choice (last segment) name: a clash was resolved
+	// a package that did not get the name it gets when it is alone on a fresh tracker: a clash was resolved
 	for _, e := range obs.Final {
-		l := strings.ToLower(lastSeg(e.Path))
-		if e.Name != l && !strings.ContainsAny(l, "-_.~") {
+		tr := namer.NewDefaultImportTracker()
+		if p, _ := core.Recover(func() { tr.AddType(gengotypes.Ref(e.Path, "X")) }); !p && tr.LocalNameOf(e.Path) != e.Name {
 			tags["clash_resolved"] = true
 		}
 		if len(e.Owners) > 0 {
